@@ -34,10 +34,15 @@ type amsg struct {
 	Nid    int    `json:"nid"`
 	Body   string `json:"body"`
 	Aux    int    `json:"aux"`
+	U      int    `json:"u"` // unsigned part of a precommit (BTP vote bases and proof parts): 0 none, 1, 2
 }
 
 func (m amsg) key() string {
-	return fmt.Sprintf("%s/%s/h%d/r%d/n%d/%s/a%d", m.Kind, m.Signer, m.Height, m.Round, m.Nid, m.Body, m.Aux)
+	k := fmt.Sprintf("%s/%s/h%d/r%d/n%d/%s/a%d", m.Kind, m.Signer, m.Height, m.Round, m.Nid, m.Body, m.Aux)
+	if m.U != 0 {
+		k += fmt.Sprintf("/u%d", m.U)
+	}
+	return k
 }
 
 type step struct {
@@ -68,6 +73,8 @@ type world struct {
 	ts0     int64
 	bid     map[string][]byte
 	psid    map[string]*consensus.PartSetID
+	nts     [3][]module.NTSHashEntryFormat // unsigned BTP vote bases for u = 1, 2
+	ntsp    [3][][]byte                    // and their proof parts
 	cache   map[string]*cmsg
 }
 
@@ -116,6 +123,25 @@ func newWorld(rnd *rand.Rand) *world {
 		w.psid["yp"] = w.psid["y"]
 	}
 	w.psid["xp"] = w.psid["x"]
+	// the unsigned part of a precommit: u = 1 one BTP vote base with a proof part; u = 2 differs from it in the
+	// section hash, in the network type id, in the number of entries, or only in the proof part
+	h1 := rb(32)
+	w.nts[1] = []module.NTSHashEntryFormat{{NetworkTypeID: 1, NetworkTypeSectionHash: h1}}
+	w.ntsp[1] = [][]byte{rb(70)}
+	switch rnd.Intn(4) {
+	case 0:
+		w.nts[2] = []module.NTSHashEntryFormat{{NetworkTypeID: 1, NetworkTypeSectionHash: rb(32)}}
+		w.ntsp[2] = w.ntsp[1]
+	case 1:
+		w.nts[2] = []module.NTSHashEntryFormat{{NetworkTypeID: 2, NetworkTypeSectionHash: h1}}
+		w.ntsp[2] = w.ntsp[1]
+	case 2:
+		w.nts[2] = []module.NTSHashEntryFormat{{NetworkTypeID: 1, NetworkTypeSectionHash: h1}, {NetworkTypeID: 2, NetworkTypeSectionHash: rb(32)}}
+		w.ntsp[2] = [][]byte{w.ntsp[1][0], rb(70)}
+	default:
+		w.nts[2] = w.nts[1]
+		w.ntsp[2] = [][]byte{rb(70)}
+	}
 	return w
 }
 
@@ -174,6 +200,35 @@ func (w *world) conc(a amsg) (*cmsg, error) {
 		}
 		c.dst = module.DSTVote
 		c.bytes = codec.BC.MustMarshalToBytes(vm)
+		if a.U != 0 {
+			// the same genuine vote re-encoded with an unsigned BTP part: same signature bytes, same signed content
+			base := a
+			base.U = 0
+			cb, err := w.conc(base)
+			if err != nil {
+				return nil, err
+			}
+			bm, err := consensus.UnmarshalMessage(uint16(consensus.ProtoVote), cb.bytes)
+			if err != nil {
+				return nil, err
+			}
+			um := consensus.NewVoteMessage(w.wallet(a.Signer), vt, h, r, bm.(*consensus.VoteMessage).BlockID, nil, ts,
+				w.nts[a.U], w.ntsp[a.U], 0)
+			um.BlockPartSetIDAndNTSVoteCount = bm.(*consensus.VoteMessage).BlockPartSetIDAndNTSVoteCount
+			um.Signature = bm.(*consensus.VoteMessage).Signature
+			c.bytes = codec.BC.MustMarshalToBytes(um)
+			// it must still decode, carry the unsigned part, and have the base's signature
+			dm, err := consensus.UnmarshalMessage(uint16(consensus.ProtoVote), c.bytes)
+			if err != nil {
+				return nil, fmt.Errorf("re-encoded vote %s does not decode: %v", a.key(), err)
+			}
+			dv := dm.(*consensus.VoteMessage)
+			s1, _ := dv.Signature.Signature.SerializeRSV()
+			s2, _ := bm.(*consensus.VoteMessage).Signature.Signature.SerializeRSV()
+			if !bytes.Equal(s1, s2) || len(dv.NTSDProofParts) != len(w.ntsp[a.U]) || bytes.Equal(c.bytes, cb.bytes) {
+				return nil, fmt.Errorf("re-encoded vote %s lost its signature or its unsigned part", a.key())
+			}
+		}
 	case "proposal":
 		pm := consensus.NewProposalMessage()
 		pm.Height = h
@@ -224,8 +279,15 @@ func class(a, b amsg) string {
 		return p + "different-nonzero-nids"
 	case a == b:
 		return p + "identical-messages"
+	case signed(a) == signed(b):
+		return p + "same-signed-content" // one genuine vote re-encoded with another unsigned part
 	}
 	return p + "other"
+}
+
+func signed(a amsg) amsg {
+	a.U = 0
+	return a
 }
 
 func (w *world) describe(c *cmsg) map[string]interface{} {
